@@ -35,7 +35,9 @@ func plainText(r *rand.Rand, n int) string {
 // tagLike returns a complete tag or object spelling that a raw or comment
 // body may contain (never an end tag of the enclosing block).
 func tagLike(r *rand.Rand) string {
-	inner := pick(r, []string{"x", " x | upcase ", "- y -", " 1 | nosuchfilter: 2 ", " a.b[0] ", "\"}\"x", " 'q' "})
+	// (also quotes without a partner: what looks like the start of a string literal inside a raw or comment body is
+	// just text, whatever quotes follow further down)
+	inner := pick(r, []string{"x", " x | upcase ", "- y -", " 1 | nosuchfilter: 2 ", " a.b[0] ", "\"}\"x", " 'q' ", " don't show ", " say \"hi ", "'", " x | append: 'a ", "\""})
 	switch r.Intn(6) {
 	case 0:
 		return "{{" + inner + "}}"
@@ -188,7 +190,7 @@ func init() {
 // deepNesting: one chain of blocks nested d deep, through bodies or through clauses (the inner block sits in the
 // else / when branch of the outer one) - however deep, a properly nested template is accepted
 func deepNesting(r *rand.Rand) []any {
-	d := pick(r, []int{45, 52, 70, 101, 130, 160})
+	d := pick(r, []int{45, 52, 70, 101, 130, 160, 255, 256, 257, 300, 600})
 	kind := r.Intn(4)
 	toks := []any{}
 	ends := []string{}
